@@ -154,6 +154,8 @@ type frame struct {
 	privAllocs []*ssa.Alloc
 	touched      map[string][]string
 	touchedTypes map[string]bool
+	objFramed    bool
+	ghostFramed  bool
 }
 
 func (e *Engine) ob(f *frame, kind, label string, tags []string, pc, cond string, pos token.Pos) {
@@ -621,8 +623,21 @@ func (f *frame) enterLoop(li *loopInfo, b *ssa.BasicBlock, pc0 string, h *Heap, 
 	}
 	// 3. havoc what the loop may change (object-restricted where the contract has a touches clause)
 	touched, _ := f.touchedOf()
-	f.havocModsT(h, li.mods, li.all, touched, li.own)
-	e.bumpWater(f.prefix + "loop") // objects allocated by earlier iterations exist now
+	f.havocModsT(h, li.mods, li.all, touched, li.own, f.objFramed)
+	loopMark := e.bumpWater(f.prefix + "loop") // objects allocated by earlier iterations exist now
+	defer func() {
+		// whatever the loop variables refer to at the head exists now
+		for _, v := range li.phiAtHead {
+			switch x := v.(type) {
+			case PtrV:
+				if x.L.Kind == LObj {
+					e.assume(fmt.Sprintf("(<= %s %s)", x.L.Ref, loopMark))
+				}
+			case SliceV:
+				e.assume(fmt.Sprintf("(<= %s %s)", x.B, loopMark))
+			}
+		}
+	}()
 	li.phiAtHead = map[*ssa.Phi]Val{}
 	for _, ins := range b.Instrs {
 		if in, ok := ins.(*ssa.Phi); ok {
@@ -891,6 +906,15 @@ func (f *frame) step(b *ssa.BasicBlock, ins ssa.Instruction, pc string, h *Heap,
 		f.zeroElems(h, under(in.Type()).(*types.Slice).Elem(), r)
 		f.vals[in] = SliceV{r, "0", l, c}
 	case *ssa.MakeMap:
+		if in.Reserve != nil {
+			// make(map[K]V, hint) allocates buckets for hint entries up front
+			mt := under(in.Type()).(*types.Map)
+			es := e.w.sizes.Sizeof(mt.Key()) + e.w.sizes.Sizeof(mt.Elem())
+			if es < 1 {
+				es = 1
+			}
+			f.allocOb(pc, fmt.Sprintf("(* %d %s)", es, e.scalar(f.get(in.Reserve))), in.Pos(), in)
+		}
 		r := e.newRef(f.name(in) + ".map")
 		f.vals[in] = Sc{r}
 		f.mapInit(h, in.Type(), r)
@@ -1000,6 +1024,17 @@ func (e *Engine) newRef(prefix string) string {
 // allocOb bounds an allocation of `bytes` bytes: below the 2 GiB ceiling (C10/C20).
 func (f *frame) allocOb(pc, bytes string, pos token.Pos, ins ssa.Instruction) {
 	e := f.e
+	// allocation ceilings belong to the properties about hostile input and memory (C10, C18, C19, C20)
+	relevant := false
+	for _, t := range f.safety {
+		switch t {
+		case "C10", "C18", "C19", "C20", "SEM":
+			relevant = true
+		}
+	}
+	if !relevant {
+		return
+	}
 	if e.inputBytes == "" {
 		f.safetyOb("alloc", pc, fmt.Sprintf("(< %s 2147483648)", bytes), pos, ins)
 		return
@@ -1346,7 +1381,8 @@ func (f *frame) makeInterface(in *ssa.MakeInterface, pc string, h *Heap) Val {
 			key := "mkiface:" + r
 			if !e.once[key] {
 				e.once[key] = true
-				e.assume(fmt.Sprintf("(and (= (dyntag %s) %d) (= (payload %s) %s) (> %s 0))", r, tag, r, xv.L.Ref, r))
+				// the interface value wrapping a pointer is as old as the object pointed to
+				e.assume(fmt.Sprintf("(and (= (dyntag %s) %d) (= (payload %s) %s) (> %s 0) (= (> %s pre) (> %s pre)))", r, tag, r, xv.L.Ref, r, r, xv.L.Ref))
 			}
 		}
 	}
@@ -1536,6 +1572,15 @@ func (f *frame) next(in *ssa.Next, pc string, h *Heap) {
 			m := e.scalar(f.get(rng.X))
 			okb := e.scalar(tv[0])
 			k := e.scalar(tv[1])
+			// go/ssa gives an unused key or value the invalid type: take the ranges from the map type
+			if rf := rangeFact(mt.Key(), k); rf != "" {
+				e.assume(rf)
+			}
+			if sc, isSc := tv[2].(Sc); isSc {
+				if rf := rangeFact(mt.Elem(), sc.T); rf != "" {
+					e.assume(rf)
+				}
+			}
 			e.assume(fmt.Sprintf("(=> %s (and (not (= %s 0)) (select (select %s %s) %s)))", okb, m, dom, m, k))
 			if _, isSc := tv[2].(Sc); isSc && sortOf(mt.Elem()) != "" {
 				e.assume(fmt.Sprintf("(=> %s (= %s (select (select %s %s) %s)))", okb, e.scalar(tv[2]), val, m, k))
